@@ -1,6 +1,6 @@
 (* Run.v — single entry point of the executable model: one wire value in, one out.
    Decoding of arguments is done here, in Gallina, so that driver.ml has no logic. *)
-From Verif Require Import PyLib ModelTypes Generated_scores Model_scores Spec_scores Run_parse Run_export Run_many Run_store Run_superpose Run_sql.
+From Verif Require Import PyLib ModelTypes Generated_scores Model_scores Spec_scores Run_parse Run_export Run_many Run_store Run_superpose Run_sql Run_contact Run_geom.
 Open Scope string_scope.
 
 Definition VresS (r : res string) : V :=
@@ -48,7 +48,13 @@ Definition run (v : V) : V :=
     | None =>
     match run_sql cmd args with
     | Some r => r
+    | None =>
+    match run_contact cmd args with
+    | Some r => r
+    | None =>
+    match run_geom cmd args with
+    | Some r => r
     | None => VErr "unknown-command"
-    end end end end end end end
+    end end end end end end end end end
   | _ => VErr "bad-request"
   end.
